@@ -572,6 +572,38 @@ func runcacheCmd(args []string) error {
 		}
 		rec(nil)
 	}
+	// (a'') bounded-exhaustive around a kill in the middle of a multi-task run: shape "a(f0) b(a,*.dat)", the five operations
+	// that matter for "what did the tasks completed before the kill leave on disk", to depth 5
+	{
+		ts := shapes["a(f0) b(a,*.dat)"]
+		cb := mkRun(ts, 1, false, 'S', -1)
+		cb.kind, cb.at = 'C', 1
+		alpha := []rcOp{{kind: 'E', p: 0, c: "1"}, {kind: 'E', p: 0, c: "2"}, mkRun(ts, 1, false, 'S', -1), cb, mkRun(ts, 0, false, 'S', -1)}
+		depth := 5
+		if *tier == "thorough" {
+			alpha = append(alpha, mkRun(ts, 1, true, 'S', -1), rcOp{kind: 'X'})
+			depth = 6
+		}
+		st.Exhaustive += fmt.Sprintf("; kill family: every sequence of length <= %d over %d operations (two contents of a's file, run b with its dependency a, the same run killed during b, run a alone)", depth, len(alpha))
+		idx := 0
+		var rec func(prefix []rcOp)
+		rec = func(prefix []rcOp) {
+			if len(prefix) > 0 {
+				idx++
+				if idx%*nshards == *shard {
+					// both tasks have files from the start (b's glob matches g0.dat), so both get a write-ahead entry
+					runHistory("exhaustive-kill-mid-run", ts, append([]rcOp{{kind: 'E', p: 0, c: "1"}, {kind: 'E', p: 2, c: "1"}}, prefix...))
+				}
+			}
+			if len(prefix) == depth {
+				return
+			}
+			for _, o := range alpha {
+				rec(append(append([]rcOp{}, prefix...), o))
+			}
+		}
+		rec(nil)
+	}
 	// (b) random histories to depth 25 over all shapes
 	nr := 3000
 	if *tier == "thorough" {
